@@ -130,6 +130,15 @@ def generate(tier, rng):
         yield f'sh.ser.pl {hexs(b"ok")};{hexs(t)}'
         yield f'sh.ser.pl {hexs(b"ok")};{hexs(t)}=i1'
         yield f'sh.ser.pl {hexs(b"ok")};{hexs(b"k")}=t{hexs(t)}'
+    # the same look-alikes fed to the PARSERS, at every kind of position (a code point whose low byte is an allowed character is still not one)
+    runes = ['\u0165', '\u212a', '\u012d', '\u0131', '\U0001f661', '\u0141', '\u0161', '\u0130', '\u00e9', '\u012a', '\u015f', '\u022d', '\u0125', '\u013a', '\uff41', '\u0430']
+    runes += [chr(0x100 * k + c) for k in (1, 2, 0x21) for c in b'aZ0_-.:%*/']
+    for r in runes:
+        x = r.encode('utf-8')
+        for tpl in (b'foo%s', b'%sfoo', b'fo%so', b'label;d%ste=1', b'label;%sk=1', b'label;k%s', b'la%sbel;a=1', b'label;a=to%sk', b'label;a="s%st"', b'en;fr%s', b'a, b%s', b'a;k=*YQ%s==*', b'a;k=1%s'):
+            v = tpl.replace(b'%s', x)
+            yield f'sh.parse.pl {hexs(v)}'
+            yield f'sh.parse.ll {hexs(v)}'
     # numbers and byte sequences in depth
     for v in ['0', '-0', '00012', '-', '--1', '1-', '-1a', '18446744073709551616', '-9223372036854775809', '9' * 30, '1.5', '1e3', '+1']:
         yield f'sh.parse.ll {hexs(v.encode())}'
